@@ -8,6 +8,9 @@ vm_compute; this is the tie of the theorems to the source).
 import glob
 import json
 import os
+import shutil
+import subprocess
+import time
 
 from harness import fw, gen_bits, cpp_build
 
@@ -40,8 +43,14 @@ def evaluate(ctx, mods, mode, tag, given=None, count=True):
     """Build + run the modules, compare every observation with the SPEC, return Coq cases.
 
     Returns (coq_cases, n_spec_violations, build_failures)."""
+    t0 = time.time()
     jobs, info = _jobs_for(ctx, mods, mode, given)
+    t1 = time.time()
     results = cpp_build.run_jobs(os.path.join(ctx.bdir, "cpp_" + tag), jobs, parallel=16, timeout=600)
+    t2 = time.time()
+    ctx.extra.setdefault("timing_s", {})[tag] = dict(generate=round(t1 - t0, 1), embossc_gxx_run=round(t2 - t1, 1),
+                                                     stages_max={k: round(max((r.times.get(k, 0) for r in results.values()), default=0), 1)
+                                                                 for k in ("embossc", "compile", "run")})
     coq_cases, n_bad, failures = [], 0, []
     for name in sorted(results, key=lambda n: int(n[1:]) if n[1:].isdigit() else 0):
         r = results[name]
@@ -81,9 +90,7 @@ def evaluate(ctx, mods, mode, tag, given=None, count=True):
                         ctx.violation(key, "%s %s width %d at bit %d of %d-byte %s container, buffer %s: %s" % (
                             acc.kind, acc.enum or "", acc.w, acc.bit_offset, acc.c, acc.order, gen_bits.hexs(root), msg),
                             _replay(m, acc, buffer=gen_bits.hexs(root), observed=o["line"], expected=exp), found_input=True)
-                    coq_cases.append(("(%s, %s)" % (gen_bits.coq_acc(acc, m.opt), gen_bits.coq_buf(root)),
-                                      gen_bits.coq_read_expected(o),
-                                      dict(m=m, acc=acc, root=root, obs=o, spec_bad=bool(bad))))
+                    coq_cases.append((None, None, dict(m=m, acc=acc, root=root, obs=o, spec_bad=bool(bad))))
             if mode != "read":
                 for b, root in enumerate(cs["write_bufs"]):
                     ws, exps, objs, any_bad = [], [], [], False
@@ -115,24 +122,127 @@ def evaluate(ctx, mods, mode, tag, given=None, count=True):
                                     gen_bits.cty_name(t), v, msg),
                                     _replay(m, acc, buffer=gen_bits.hexs(root), argument_type=gen_bits.cty_name(t), value=v,
                                             observed=o["line"], expected=exp), found_input=True)
-                            ws.append("(%s, %s)" % (gen_bits.coq_cty(t), gen_bits.coq_z(v)))
-                            exps.append(gen_bits.coq_write_expected(o))
                             objs.append((t, v, o))
-                    if ws:
-                        coq_cases.append(("(%s, %s, [%s])" % (gen_bits.coq_acc(acc, m.opt), gen_bits.coq_buf(root), "; ".join(ws)),
-                                          "[%s]" % "; ".join(exps),
-                                          dict(m=m, acc=acc, root=root, writes=objs, spec_bad=any_bad)))
+                    if objs:
+                        coq_cases.append((None, None, dict(m=m, acc=acc, root=root, writes=objs, spec_bad=any_bad)))
+    ctx.extra["timing_s"][tag]["compare_with_spec"] = round(time.time() - t2, 1)
     return coq_cases, n_bad, failures
 
 
-def model_compare(ctx, mode, coq_cases, tag):
+def build_extracted(ctx):
+    """coqc extract/bits/Extract.v + ocamlfind ocamlopt into ctx.bdir/extract; returns the binary path."""
+    rc, out = fw.coq_make(["Bits/Exec.vo"])
+    if rc != 0:
+        raise fw.CoqEvalError("building Bits/Exec.vo failed: " + out[-2000:])
+    d = os.path.join(ctx.bdir, "extract")
+    shutil.rmtree(d, ignore_errors=True)
+    os.makedirs(d)
+    for f in ("Extract.v", "driver.ml"):
+        shutil.copy(os.path.join(fw.VERIF, "extract", "bits", f), d)
+    rc, out = fw.sh(["coqc"] + fw.COQ_FLAGS + ["Extract.v"], cwd=d, timeout=600)
+    if rc != 0:
+        raise fw.CoqEvalError("extraction failed: " + out[-2000:])
+    rc, out = fw.sh(["ocamlfind", "ocamlopt", "-w", "-a", "bits_model.mli", "bits_model.ml", "driver.ml", "-o", "bits_model"],
+                    cwd=d, timeout=600)
+    if rc != 0:
+        raise fw.CoqEvalError("ocamlopt failed: " + out[-2000:])
+    return os.path.join(d, "bits_model")
+
+
+def coq_terms(obj):
+    """(input term, expected output term) of a case for evaluation inside Coq"""
+    acc, m, root = obj["acc"], obj["m"], obj["root"]
+    if "obs" in obj:
+        return ("(%s, %s)" % (gen_bits.coq_acc(acc, m.opt), gen_bits.coq_buf(root)), gen_bits.coq_read_expected(obj["obs"]))
+    ws = ["(%s, %s)" % (gen_bits.coq_cty(t), gen_bits.coq_z(v)) for t, v, _ in obj["writes"]]
+    exps = [gen_bits.coq_write_expected(o) for _, _, o in obj["writes"]]
+    return ("(%s, %s, [%s])" % (gen_bits.coq_acc(acc, m.opt), gen_bits.coq_buf(root), "; ".join(ws)), "[%s]" % "; ".join(exps))
+
+
+def _zs(s):
+    if s == "-":
+        return None
+    neg = s.startswith("-")
+    v = int(s.lstrip("-")[1:], 2)
+    return -v if neg else v
+
+
+def _model_line(obj):
+    acc, m = obj["acc"], obj["m"]
+    order = gen_bits.null_constructor() if acc.order == "Null" else acc.order
+    head = "%s %d %s %d %d %s %s %s %d %s" % (
+        "R" if "obs" in obj else "W", 1 if m.opt else 0, order, acc.boff, acc.c,
+        ",".join("%d:%d" % (o, z) for o, z in acc.path) or "-", acc.kind,
+        "%d:%d" % (1 if acc.ut[0] else 0, acc.ut[1]) if acc.kind == "enum" else "-", acc.w,
+        gen_bits.hexs(obj["root"]) or "-")
+    if "obs" in obj:
+        return head
+    return head + " " + " ".join("%d:%d:%d" % (1 if t[0] else 0, t[1], v) for t, v, _ in obj["writes"])
+
+
+def _agree_read(o, line):
+    if line == "none":
+        return o["chk"] > 0
+    if o["chk"]:
+        return False
+    ok, cpl, sz, sg, v = line.split(" ")
+    return (ok == "1") == o["ok"] and (cpl == "1") == o["cpl"] and _zs(sz) == o["sz"] and (sg == "1") == o["sg"] \
+        and _zs(v) == o["v"]
+
+
+def _agree_write(o, item):
+    if item == "none":
+        return o["chk"] > 0
+    if o["chk"]:
+        return False
+    cw, tw, rd, n, buf = item.split(" ")
+    root = [_zs(x) for x in buf.split(",")] if int(n) else []
+    return (cw == "1") == o["cw"] and (tw == "1") == o["tw"] and _zs(rd) == o["rd"] and root == o["buf"]
+
+
+def model_compare(ctx, mode, cases, tag):
+    """Evaluate the model on every case: extracted OCaml for all of them, inside Coq (vm_compute) for a sample.
+    Returns the list of (case index, model output text) that disagree with the C++ observations."""
+    t0 = time.time()
+    exe = build_extracted(ctx)
+    t1 = time.time()
+    inp = "\n".join(_model_line(c[2]) for c in cases) + "\n"
+    p = subprocess.run([exe], input=inp, stdout=subprocess.PIPE, stderr=subprocess.PIPE, text=True, timeout=900)
+    lines = p.stdout.split("\n")
+    if p.returncode != 0 or len(lines) < len(cases):
+        raise fw.CoqEvalError("extracted model failed (rc=%s): %s" % (p.returncode, p.stderr[-1000:]))
+    t2 = time.time()
+    bad = []
+    for i, c in enumerate(cases):
+        obj = c[2]
+        if "obs" in obj:
+            if not _agree_read(obj["obs"], lines[i]):
+                bad.append((i, lines[i]))
+        else:
+            items = lines[i].split(" | ")
+            if len(items) != len(obj["writes"]) or not all(_agree_write(o, it) for (_, _, o), it in zip(obj["writes"], items)):
+                bad.append((i, lines[i]))
+    # the same model evaluated by the Coq kernel's vm on a sample (all cases in the thorough tier up to a cap)
+    n_vm = (6000 if mode == "read" else 1500) if ctx.thorough() else (600 if mode == "read" else 150)
+    idxs = sorted(ctx.rng.sample(range(len(cases)), min(n_vm, len(cases))))
+    sample = [coq_terms(cases[i][2]) + (cases[i][2],) for i in idxs]
     if mode == "read":
         runner = fw.CoqCases(ctx, tag, gen_bits.COQ_HEADER, "run_read_case", "read_out_eqb",
-                             "(acc * (nat * Z))", "(option robs)", shard=400)
+                             "(acc * (nat * Z))", "(option robs)", shard=100)
     else:
         runner = fw.CoqCases(ctx, tag, gen_bits.COQ_HEADER, "run_write_case", "write_out_eqb",
-                             "(acc * (nat * Z) * list (cty * Z))", "(list (option wobs'))", shard=150)
-    return runner.run(coq_cases)
+                             "(acc * (nat * Z) * list (cty * Z))", "(list (option wobs'))", shard=25)
+    t3 = time.time()
+    vm_bad = runner.run(sample)
+    ctx.extra.setdefault("timing_s", {})["model"] = dict(extract_build=round(t1 - t0, 1), extracted_run=round(t2 - t1, 1),
+                                                         compare=round(t3 - t2, 1), vm_compute_sample=round(time.time() - t3, 1))
+    ctx.extra["cases_evaluated_by_extracted_model"] = len(cases)
+    ctx.extra["cases_evaluated_by_vm_compute"] = len(sample)
+    known = {i for i, _ in bad}
+    for k, out in vm_bad:
+        if idxs[k] not in known:
+            bad.append((idxs[k], out))
+    return bad
 
 
 def search_spec(ctx, mode, accs, opt):
@@ -209,7 +319,7 @@ def run_bits(ctx, mode, prop):
         ctx.violation("model-eval", "Coq evaluation of the cases failed: %s" % str(ex)[-500:],
                       dict(kind="correspondence", correspondence="Bits.Exec.run_%s_case vs generated C++" % mode), found_input=False)
         return
-    ctx.obligation("correspondence: model (vm_compute) and generated C++ agree on %d cases" % len(all_cases), not bad)
+    ctx.obligation("correspondence: model (extracted; a sample also by vm_compute) and generated C++ agree on %d cases" % len(all_cases), not bad)
     # a disagreement on a case whose C++ observation already contradicts the SPEC is reported there
     fresh = [(i, out) for i, out in bad if not all_cases[i][2]["spec_bad"]]
     if fresh:
@@ -223,7 +333,7 @@ def run_bits(ctx, mode, prop):
                           "model and generated C++ disagree (%d cases), no SPEC violation found in the (c,o,w) space" % len(fresh),
                           _replay(obj["m"], obj["acc"], buffer=gen_bits.hexs(obj["root"]),
                                   correspondence="Bits.Exec.run_%s_case vs generated C++" % mode,
-                                  coq_input=all_cases[i][0], cpp=all_cases[i][1], model_outputs=out[:2000]),
+                                  coq_input=coq_terms(obj)[0], cpp=coq_terms(obj)[1], model_outputs=out[:2000]),
                           found_input=False)
 
 
